@@ -43,6 +43,15 @@
 (*                     fetched in CallLock while it waits), later callers get a new object with  *)
 (*                     its own m.lock on the same etcd key.                                       *)
 (*                                                                                              *)
+(*   HoldWatchdog      a mutex is held for as long as its holder likes: nothing but the holder's  *)
+(*                     Unlock (or a deadline inside its own Lock call) deletes the lock key or    *)
+(*                     releases m.lock, however long the critical section lasts compared with the *)
+(*                     request time-out.  With HoldWatchdog a timer armed by Lock (some multiple   *)
+(*                     of the time-out) does both on the holder's behalf while the holder is      *)
+(*                     still inside (-> Watchdog); the holder's later Unlock is then a no-op.     *)
+(*                     Decided on the real code by the scenarios "W" of the trace validation      *)
+(*                     (holds of k x the configured time-out, contenders trying all the while).   *)
+(*                                                                                              *)
 (* Configurations (constants): (A) one handle object per member -- the way api.Server uses it -- *)
 (* shared by several goroutines; (B) two handle objects of the same member for the same name     *)
 (* (what meshcontroller/storage.New does: every storage.New(name, cls) calls cls.Mutex(name)).   *)
@@ -58,7 +67,8 @@ CONSTANTS Procs,       \* goroutines (strings)
           MaxRegrants, \* lease re-grants (failed keep-alives) in a behaviour (bounds the model)
           RenewSession, \* BOOLEAN: FALSE = the code (the session is created once per member)
           LocalWaitTimeout, \* BOOLEAN: FALSE = the code (the wait for the process-local lock is not bounded)
-          EvictOnUnlock \* BOOLEAN: FALSE = the code (the per-name registry keeps the handle object)
+          EvictOnUnlock, \* BOOLEAN: FALSE = the code (the per-name registry keeps the handle object)
+          HoldWatchdog  \* BOOLEAN: FALSE = the code (only the holder ends its critical section, whatever its length)
 
 (* A goroutine obtains its handle with cluster.Mutex(name) before every Lock call (CallLock): the  *)
 (* handle object belongs to the session of that moment.  Gens numbers a member's leases; handle   *)
@@ -80,10 +90,11 @@ VARIABLES pc,          \* per goroutine, see below
           hgen,        \* per goroutine: generation of the handle object it uses for the current call
           regrants,    \* re-grants so far
           inc,         \* per handle: the incarnation cluster.Mutex(name) returns now (cluster.mutexes[name])
-          hinc         \* per goroutine: the incarnation it fetched for the current call
+          hinc,        \* per goroutine: the incarnation it fetched for the current call
+          wd           \* per goroutine: HoldWatchdog only - the watchdog has released the mutex under this holder
 
-reg == <<inc, hinc>>
-vars == <<pc, localHeld, key, rev, myRev, rounds, timeouts, lease, sgen, hgen, regrants, inc, hinc>>
+reg == <<inc, hinc, wd>>
+vars == <<pc, localHeld, key, rev, myRev, rounds, timeouts, lease, sgen, hgen, regrants, inc, hinc, wd>>
 
 (* pc: "idle"  not in a call, not holding            "local" Lock called, blocked on m.lock        *)
 (*     "acq"   owns m.lock, about to run the txn     "wait"  key exists, waitDeletes               *)
@@ -109,6 +120,7 @@ Init ==
     /\ lease = [m \in Members |-> 1] /\ sgen = [m \in Members |-> 1]
     /\ hgen = [p \in Procs |-> 1] /\ regrants = 0
     /\ inc = [h \in Handles |-> 1] /\ hinc = [p \in Procs |-> 1]
+    /\ wd = [p \in Procs |-> FALSE]
 
 (* keepAliveLease: KeepAliveOnce failed -> grantNewLease.  Nothing else happens. *)
 Regrant(m) ==
@@ -129,7 +141,7 @@ CallLock(p) ==
              ELSE UNCHANGED <<key, rev>>
     /\ hinc' = [hinc EXCEPT ![p] = inc[H(p)]]     \* the registry's object for the name
     /\ pc' = [pc EXCEPT ![p] = "local"] /\ rounds' = [rounds EXCEPT ![p] = @ + 1]
-    /\ UNCHANGED <<localHeld, myRev, timeouts, lease, regrants, inc>>
+    /\ UNCHANGED <<localHeld, myRev, timeouts, lease, regrants, inc, wd>>
 
 LocalLock(p) ==
     /\ pc[p] = "local" /\ ~localHeld[HG(p)]
@@ -195,10 +207,21 @@ FailReturn(p) ==
     /\ pc' = [pc EXCEPT ![p] = "idle"]
     /\ UNCHANGED <<key, rev, myRev, rounds, timeouts, lease, sgen, hgen, regrants, reg>>
 
+(* HoldWatchdog only: the timer armed by Lock fires while p is inside its critical section - the lock key is  *)
+(* deleted and m.lock released on p's behalf; p goes on (it is still "held": it has not called Unlock)        *)
+Watchdog(p) ==
+    /\ HoldWatchdog /\ pc[p] = "held" /\ ~wd[p]
+    /\ DeleteKey(p)
+    /\ localHeld' = [localHeld EXCEPT ![HG(p)] = FALSE]
+    /\ wd' = [wd EXCEPT ![p] = TRUE]
+    /\ UNCHANGED <<pc, rounds, timeouts, lease, sgen, hgen, regrants, inc, hinc>>
+
+(* (after the watchdog Unlock finds its timer spent and returns nil without doing anything) *)
 CallUnlock(p) ==
     /\ pc[p] = "held"
-    /\ pc' = [pc EXCEPT ![p] = "rel"]
-    /\ UNCHANGED <<localHeld, key, rev, myRev, rounds, timeouts, lease, sgen, hgen, regrants, reg>>
+    /\ pc' = [pc EXCEPT ![p] = IF wd[p] THEN "idle" ELSE "rel"]
+    /\ wd' = [wd EXCEPT ![p] = FALSE]
+    /\ UNCHANGED <<localHeld, key, rev, myRev, rounds, timeouts, lease, sgen, hgen, regrants, inc, hinc>>
 
 UnlockDelete(p) ==
     /\ pc[p] = "rel"
@@ -206,7 +229,7 @@ UnlockDelete(p) ==
     /\ pc' = [pc EXCEPT ![p] = "rel2"]
     /\ inc' = IF EvictOnUnlock /\ inc[H(p)] = hinc[p] /\ inc[H(p)] < MaxInc      \* `if c.mutexes[name] == m { delete(...) }`
               THEN [inc EXCEPT ![H(p)] = @ + 1] ELSE inc
-    /\ UNCHANGED <<localHeld, rounds, timeouts, lease, sgen, hgen, regrants, hinc>>
+    /\ UNCHANGED <<localHeld, rounds, timeouts, lease, sgen, hgen, regrants, hinc, wd>>
 
 UnlockLocal(p) ==
     /\ pc[p] = "rel2"
@@ -218,6 +241,7 @@ Progress(p) == \/ LocalLock(p) \/ TryAcquire(p) \/ WaitDone(p) \/ Check(p) \/ Fa
                \/ CallUnlock(p) \/ UnlockDelete(p) \/ UnlockLocal(p)
 
 Next == \/ \E p \in Procs : CallLock(p) \/ Progress(p) \/ AcqTimeout(p) \/ Timeout(p) \/ LocalTimeout(p)
+        \/ \E p \in Procs : Watchdog(p)
         \/ \E m \in Members : Regrant(m)
 
 Spec == Init /\ [][Next]_vars
@@ -232,6 +256,7 @@ TypeOK ==
     /\ \A m \in Members : lease[m] \in Gens /\ sgen[m] \in Gens /\ sgen[m] <= lease[m]
     /\ \A p \in Procs : hgen[p] \in Gens /\ hinc[p] \in Incs
     /\ \A h \in Handles : inc[h] \in Incs
+    /\ wd \in [Procs -> BOOLEAN]
 
 (* C18, first clause: at most one holder (between the return of Lock and the call of Unlock) *)
 Holders == {p \in Procs : pc[p] = "held"}
